@@ -72,8 +72,8 @@ def option_invariance(ctx, texts):
     ctx.coverage["option_invariance_failures"] = bad
 
 
-def raw_path(ctx, tier):
-    """pest_optimizer = false compiled and run: faithful raw model (T2) and the PEG spec (T3)"""
+def raw_corpus(tier):
+    """the corpus compiled with pest_optimizer = false (shared with C11: it compiles, and every parse of it returns)"""
     texts = [t for t in grammar.HAND if "ws_ref" not in t][:14 if tier == "quick" else 26]
     # counted repetitions (single RepMin / RepMinMax nodes on the raw path) whose iterations touch the stack
     texts += ['letter = { \'a\'..\'c\' }\nentry = { PUSH(letter) ~ ":" }\nmain = { entry{1,3} ~ letter ~ POP }\nmost = { entry{,2} ~ letter ~ POP }\n'
@@ -81,12 +81,23 @@ def raw_path(ctx, tier):
               'COMMENT = { "#" }\nWHITESPACE = { " " }\nit = @{ "x"+ }\nbounded = { it{2,3} }\nexact = { it{2} }\nupto = { it{,2} ~ "." }',
               'WHITESPACE = { " " }\nmain = { (packed | triple) ~ ";"? ~ rest }\ntriple = { num{, 3} }\npacked = @{ ASCII_DIGIT{, 3} ~ &";" }\nrest = { num* }\nnum = @{ ASCII_DIGIT ~ ASCII_DIGIT* }',
               'word = @{ ASCII_ALPHA+ }\nargs = !{ word ~ ("," ~ word)* }\ncall = ${ word ~ "(" ~ args ~ ")" }\nindex = @{ "[" ~ args ~ "]" }\nnormal = { args }\nvia = ${ "<" ~ normal ~ ">" }\nWHITESPACE = _{ " " }',
-              'item = { "x" }\nlist = { item{2,3} ~ "." }\nopt2 = { ("x" | "y"){,2} ~ "x"? }\nnest = { (item{1,2} ~ ","){1,2} }']
+              'item = { "x" }\nlist = { item{2,3} ~ "." }\nopt2 = { ("x" | "y"){,2} ~ "x"? }\nnest = { (item{1,2} ~ ","){1,2} }',
+              # a bounded repetition in CHECK mode (atomic rule) whose body changes the stack and fails at an index >= MIN, then PEEK*:
+              # a lost restore leaves an empty entry on top and PEEK* never ends
+              'line = @{ PUSH("-" | "*" | "_") ~ (PUSH(" "*) ~ "." ~ DROP){,2} ~ PEEK ~ PEEK ~ PEEK* }\nlinep = ${ PUSH("-" | "*") ~ (PUSH(" "*) ~ "." ~ DROP){1,2} ~ PEEK ~ PEEK* }',
+              # bounded counted repetitions whose body can match the empty string (pest only rejects that under *, + and {n,})
+              'pad = { " "* }\ntriple = { pad{3} ~ "x" }\nupto = { pad{1,3} ~ "x" }\nopt2 = { ("a"?){2} ~ "b" }\nopt2a = @{ ("a"?){2} ~ "b" }\nmost = ${ ("a"?){,2} ~ &"b" ~ ANY }']
     rng = Rng(777)
     cand = [grammar.rand_grammar(rng.fork("x%d" % i)) for i in range(40 if tier == "quick" else 300)]
     dgs = [dcorp.DG("w%d" % i, t, {"pest_optimizer": False}) for i, t in enumerate(texts + cand)]
     ok = dcorp.prepare(dgs)
     ok = [g for g in ok if int(g.name[1:]) < len(texts)] + gencore.wf_only([g for g in ok if int(g.name[1:]) >= len(texts)])[:10 if tier == "quick" else 80]
+    return ok
+
+
+def raw_path(ctx, tier):
+    """pest_optimizer = false compiled and run: faithful raw model (T2) and the PEG spec (T3)"""
+    ok = raw_corpus(tier)
     try:
         run = dcorp.run_corpus("raw_%s" % tier, ok, dcorp.inputs_for, MODEL_FLAGS)
     except RuntimeError as e:
